@@ -49,7 +49,7 @@ class Arr(list):
 
 KINDS = ['assign', 'print', 'print2', 'expr', 'printexpr', 'none', 'multi', 'compound', 'def', 'semicolon', 'expr_wild', 'expr_arr']
 # the richer statement grammar of the C01 program generator (C01, C18, C19, C20)
-MORE_KINDS = ['await_expr', 'unawaited_coro', 'augassign', 'for', 'while', 'with', 'try', 'decodef', 'class', 'literal_comment', 'triple', 'triple_unprefixed', 'triple_blank', 'triple_trailing_ws', 'triple_late_unprefixed',
+MORE_KINDS = ['await_expr', 'unawaited_coro', 'esc_literal', 'augassign', 'for', 'while', 'with', 'try', 'decodef', 'class', 'literal_comment', 'triple', 'triple_unprefixed', 'triple_blank', 'triple_trailing_ws', 'triple_late_unprefixed',
               'import', 'comment', 'async_await', 'async_for', 'async_with']
 ALL_KINDS = KINDS + MORE_KINDS
 
@@ -168,6 +168,17 @@ class Stmt:
             self.starts = [0, 2]
             self.is_expr = True
             self.val = str(k + 2000)
+        elif kind == 'print_cr':
+            # output with carriage returns (a progress line redrawn in place, CR LF line ends): recorded as written.
+            # Not in KINDS / MORE_KINDS: a want cannot spell a bare CR, the kind is used in want-less programs only
+            self.lines = ["print('cr%%d' %% t(%d), 'x', sep='\\r', end='\\r\\n')" % k]
+            self.is_expr = True
+            self.out = 'cr%d\rx\r\n' % k
+        elif kind == 'esc_literal':
+            # real terminal escape sequences inside string literals (ESC [ ... m, and the one-byte CSI) are part of the code
+            self.lines = ["e%d = '\x1b[31m' + str(t(%d)) + '\x1b[0m' + '\x9b1m'" % (k, k), "print(len(e%d), e%d.count(chr(27)))" % (k, k)]
+            self.starts = [0, 1]
+            self.out = '%d 2\n' % (len(str(k)) + 12)
         elif kind == 'unawaited_coro':
             # calling an async function without awaiting it runs none of its body; the value is the coroutine object
             self.lines = ['async def cu%d():' % k, "    print('cu%d body', t(%d))" % (k, k + 5000), '    return 7', 'cu%d()' % k]
